@@ -6,6 +6,7 @@ mod common;
 mod rnum;
 mod c01;
 mod c02;
+mod c03;
 mod c05;
 mod c09;
 mod c14;
@@ -19,6 +20,7 @@ macro_rules! dispatch {
         match $id {
             "C01" => $f::<c01::C01>($($arg),*),
             "C02" => $f::<c02::C02>($($arg),*),
+            "C03" => $f::<c03::C03>($($arg),*),
             "C05" => $f::<c05::C05>($($arg),*),
             "C09" => $f::<c09::C09>($($arg),*),
             "C14" => $f::<c14::C14>($($arg),*),
